@@ -356,8 +356,8 @@ def real_family(ck, quick, rng, case0):
             if os.path.exists(outp):
                 os.remove(outp)
             try:
-                p = subprocess.run([exe, root, "-q", "-f", "binary", "-o", "out.bin"], cwd=proj,
-                                   stdout=subprocess.PIPE, stderr=subprocess.PIPE, timeout=20)
+                p = common.patient_run([exe, root, "-q", "-f", "binary", "-o", "out.bin"], 20, cwd=proj,
+                                       stdout=subprocess.PIPE, stderr=subprocess.PIPE)
                 code, sig = p.returncode, 0
                 if code < 0:
                     sig, code = -code, 0
@@ -404,8 +404,8 @@ def expand_real_family(ck, quick, rng, case0):
             if os.path.exists(outp):
                 os.remove(outp)
             try:
-                p = subprocess.run([exe, rootname, "-q", "-f", "binary", "-o", "out.bin"], cwd=proj,
-                                   stdout=subprocess.PIPE, stderr=subprocess.PIPE, timeout=20)
+                p = common.patient_run([exe, rootname, "-q", "-f", "binary", "-o", "out.bin"], 20, cwd=proj,
+                                       stdout=subprocess.PIPE, stderr=subprocess.PIPE)
                 code, sig = p.returncode, 0
                 if code < 0:
                     sig, code = -code, 0
